@@ -82,3 +82,30 @@ pub fn json_object(depth: u32) -> impl Strategy<Value = Value> {
         Value::Object(m)
     })
 }
+
+/// Replace floats that do not survive serde_json's own text round trip (it is built without the
+/// `float_roundtrip` feature) by a harmless one.
+pub fn stabilise(v: &Value) -> Value {
+    match v {
+        Value::Number(n) if n.is_f64() => {
+            let f = n.as_f64().unwrap();
+            let ok = serde_json::to_string(&f)
+                .ok()
+                .and_then(|s| serde_json::from_str::<f64>(&s).ok())
+                .map(|g| g.to_bits() == f.to_bits())
+                .unwrap_or(false);
+            if ok {
+                v.clone()
+            } else {
+                Value::from(0.5)
+            }
+        }
+        Value::Array(a) => Value::Array(a.iter().map(stabilise).collect()),
+        Value::Object(o) => Value::Object(o.iter().map(|(k, x)| (k.clone(), stabilise(x))).collect()),
+        _ => v.clone(),
+    }
+}
+
+pub fn stable_json(depth: u32) -> impl Strategy<Value = Value> {
+    json_value(depth).prop_map(|v| stabilise(&v))
+}
